@@ -295,7 +295,7 @@ pub fn execute(plan: &Plan) -> Outcome {
                     passes_after_close += 1;
                     if passes_after_close > 50 { let ev = events.lock().unwrap().clone(); out.problem("close-does-not-terminate-loop", format!("50 loop passes after close() the loop is still running on an open connection; events {:?}", ev)); break 'outer; }
                 }
-                if iteration > 4000 { let ev = events.lock().unwrap().clone(); out.problem("client-stops-making-progress", format!("{} loop passes with a cooperating broker and transport and the workload is still unfinished; events {:?}", iteration, ev)); break 'outer; }
+                if iteration > 600 { let ev = events.lock().unwrap().clone(); out.problem("client-stops-making-progress", format!("{} loop passes with a cooperating broker and transport and the workload is still unfinished; events {:?}", iteration, ev)); break 'outer; }
                 // bytes the transport received since the last iteration go to the broker; its answers become readable
                 let received: Vec<u8> = { let mut g = gate.inner.lock().unwrap(); std::mem::take(&mut g.received) };
                 broker.client_bytes(&received);
@@ -414,6 +414,17 @@ pub fn execute(plan: &Plan) -> Outcome {
                 std::thread::sleep(Duration::from_micros(300));
             }
         }
+    }
+
+    // an execution that ended early (problem found, harness guard) must not leave its loop thread behind: close the client and
+    // keep granting passes for a short while so that the loop can see the request
+    if !close_issued {
+        let _ = client.close();
+        wait_until(|| {
+            { let mut g = gate.inner.lock().unwrap(); if g.phase == Phase::InRead && !g.go { g.go = true; gate.cv.notify_all(); } }
+            let probe: ClientEventListener = Arc::new(|_event: Arc<ClientEvent>| {});
+            client.add_event_listener(probe).is_err()
+        }, Duration::from_millis(300));
     }
 
     // ---- oracles -----------------------------------------------------------------------------------
